@@ -111,7 +111,9 @@ class Graph:
                 kids = kids[::-1]
             if (op in ("BinOp", "Compare", "BoolOp") and attr in COMMUTATIVE):
                 kids = sorted(kids)
-            if op == "Const":
+            if op == "Input":
+                key = ("Input", x.id)       # every input node is its own value, whatever it is called
+            elif op == "Const":
                 if isinstance(attr, (int, float)) and not isinstance(attr, bool):
                     key = ("Const", "num", repr(float(attr)))
                 else:
